@@ -84,6 +84,7 @@ fn main() {
       "C09" => Some(chain::runes::run(&ctx, "C09")),
       "C10" => Some(chain::runes::run(&ctx, "C10")),
       "C11" => Some(chain::runes::run(&ctx, "C11")),
+      "C16" => Some(chain::nofail::run(&ctx)),
       "C15" => Some(chain::configs::run(&ctx)),
       "C13" => Some(chain::crash::run(&ctx)),
       "C14" => Some(chain::reorg::run(&ctx)),
